@@ -363,3 +363,87 @@ Proof.
   exact (gram_perturbation R2 (fun _ : unit => (1, 0)) (fun _ _ => 3 / 4) (1 / 4) [(c, tt)]
            (fun _ _ => ltac:(unfold gram; cbn; rewrite Rabs_left; lra))).
 Qed.
+
+(* ------------------------------------------------------------------------------------------ *)
+(* Model-level facts that ARE algebraic (any field): the one-dimensional primitive integrals the  *)
+(* overlap and kinetic models are assembled from are symmetric under exchanging the two functions *)
+(* ------------------------------------------------------------------------------------------ *)
+From GB Require Import Model.MomentInt Proofs.MomentIntP.
+
+Section Sym.
+Context {F : Type} (K : Fops F) (Kf : is_field K).
+Add Field KFg : Kf.
+Local Open Scope F_scope.
+Notation "0" := (f0 K) : F_scope.
+Notation "1" := (f1 K) : F_scope.
+Infix "+" := (fadd K) : F_scope.
+Infix "*" := (fmul K) : F_scope.
+Infix "-" := (fsub K) : F_scope.
+Infix "/" := (fdiv K) : F_scope.
+Notation "- x" := (fopp K x) : F_scope.
+
+Variables (Ax Bx alpha beta : F).
+Hypothesis Hp : psum K alpha beta <> 0.
+Hypothesis H2 : 1 + 1 <> 0.
+
+Lemma psum_comm : psum K beta alpha = psum K alpha beta.
+Proof. unfold psum. ring. Qed.
+
+Lemma base_symm : base K Bx Ax beta alpha = base K Ax Bx alpha beta.
+Proof.
+  unfold base. rewrite psum_comm. f_equal. f_equal. f_equal.
+  unfold hmean. rewrite psum_comm. field. exact Hp.
+Qed.
+
+(* S_ab(i, j) = S_ba(j, i): the 1-D overlap primitive (prefactor x Gaussian moment) *)
+Theorem overlap_prim_symm i j : Sfun K Bx Ax beta alpha j i = Sfun K Ax Bx alpha beta i j.
+Proof.
+  unfold Sfun. rewrite base_symm. f_equal.
+  assert (Ev : 1 / twop K beta alpha = 1 / twop K alpha beta).
+  { unfold twop. now rewrite psum_comm. }
+  assert (Ea : PA K Bx Ax beta alpha = PB K Ax Bx alpha beta).
+  { unfold PA, PB, Pw. rewrite psum_comm. unfold psum in *. field. exact Hp. }
+  assert (Eb : PB K Bx Ax beta alpha = PA K Ax Bx alpha beta).
+  { unfold PA, PB, Pw. rewrite psum_comm. unfold psum in *. field. exact Hp. }
+  rewrite Ev, Ea, Eb. apply (T3_swap K Kf).
+Qed.
+
+(* second derivative: < d^2 a | b > (i, j) = < d^2 b | a > (j, i); with [ibp_iter] both equal
+   < a | d^2 b >: the 1-D kinetic primitive is symmetric *)
+Theorem kinetic_prim_symm i j :
+  iterop (negA K beta) 2 (Sfun K Bx Ax beta alpha) j i
+  = iterop (negA K alpha) 2 (Sfun K Ax Bx alpha beta) i j.
+Proof.
+  rewrite (ibp_iter K Kf Ax Bx alpha beta Hp H2 2 i j).
+  cbn [iterop]. unfold negA, Bop. rewrite !overlap_prim_symm. ring.
+Qed.
+End Sym.
+
+(* ------------------------------------------------------------------------------------------ *)
+(* One centre, one primitive pair: the Gaussian moment functional is positive on squares.         *)
+(* PARTIAL: proved for polynomials of degree <= 3 (enough for one axis of two shells with          *)
+(* l_a + l_b <= 3 sharing a centre); the statement for every degree (the Hankel matrix             *)
+(* (m_{i+j}) of the moments m_{2k} = (2k-1)!! v^k is positive semi-definite) is not proved here.   *)
+(* ------------------------------------------------------------------------------------------ *)
+Definition RKg : Fops R :=
+  mkFops R 0 1 Rplus Rmult Rminus Ropp Rdiv Rinv (fun _ _ => true) (fun _ _ => true)
+         PI sqrt exp ln (fun _ _ => 0) (fun x => x).
+
+(* E(f * g) written through the functionals Eaux: sum_i f_i * E(y^i g) *)
+Fixpoint hank (v : R) (n : nat) (f g : list R) : R :=
+  match f with [] => 0 | c :: f' => c * Eaux RKg v n g + hank v (S n) f' g end.
+
+Theorem hankel3_psd_partial (v c0 c1 c2 c3 : R) :
+  0 <= v -> 0 <= hank v 0 [c0; c1; c2; c3] [c0; c1; c2; c3].
+Proof.
+  intros Hv. unfold hank, Eaux, mom. cbn [mom2 fst snd ofnat RKg f0 f1 fadd fmul].
+  assert (E : forall x, x = (c0 + c2 * v) * (c0 + c2 * v) + 2 * (v * v) * (c2 * c2)
+                       + v * ((c1 + 3 * v * c3) * (c1 + 3 * v * c3)) + 6 * (v * v * v) * (c3 * c3) -> 0 <= x).
+  { intros x ->. assert (0 <= v * v) by nra. assert (0 <= v * v * v) by nra.
+    pose proof (Rle_0_sqr (c0 + c2 * v)) as A1. pose proof (Rle_0_sqr c2) as A2.
+    pose proof (Rle_0_sqr (c1 + 3 * v * c3)) as A3. pose proof (Rle_0_sqr c3) as A4. unfold Rsqr in *.
+    assert (0 <= 2 * (v * v) * (c2 * c2)) by nra.
+    assert (0 <= v * ((c1 + 3 * v * c3) * (c1 + 3 * v * c3))) by nra.
+    assert (0 <= 6 * (v * v * v) * (c3 * c3)) by nra. lra. }
+  apply E. ring.
+Qed.
